@@ -42,6 +42,12 @@ func shScript(kind int) []byte {
 		return fill(253, 0x60)
 	case 4:
 		return append(append([]byte{0x76, 0xa9, 0x14}, fill(20, 3)...), 0x88, 0xac)
+	case 6: // script codes that look like data carriers: the digest is defined for any script code
+		return []byte{0x6a}
+	case 7:
+		return []byte{0x00, 0x6a, 0x02, 0x01, 0x02}
+	case 8:
+		return []byte{0x6a, 0x4c}
 	}
 	return nil
 }
@@ -295,7 +301,7 @@ func shShapes0(thorough bool) []txRecipe {
 
 func init() {
 	p2 := register(&Prop{ID: "C02", Level: "exploration",
-		Rule: "exhaustive product: tx shapes nIn 1..3 x nOut 0..3 (thorough: 1..4 x 0..4) x 3/6 boundary value sets (version, locktime, vout, sequence, spent value, output values in {0,1,max,mid}; plus coinbase-like transactions whose first input spends the null outpoint) x output script length {0,25,253} (thorough: {0,1,25,252,253}) x previous script of the signed input in {empty, 1 byte, contains 0xab, 253 bytes, P2PKH, missing} x previous txid {present, never set, empty after decoding the input from JSON} x input index in {0..nIn-1, nIn, nIn+1, 2^32-1} x all 128 hash types with bit 0x40 (ANYONECANPAY types also with ANOTHER input that has no previous txid yet: the digest is defined and unaffected; every result slice is overwritten by the caller and the call repeated); oracle: preimage byte-identical to the reference FORKID preimage (reference certified on the node's 500 bip143 + 500 legacy vectors at the start of the run), digest = sha256d, errors exactly for missing input/txid/script, ExtendedBytes unchanged; plus hash -> in-place edit -> hash sequences (3/4 shapes x hash-type pairs x index pairs x 20 single edits incl. pointer replacement, swaps, append/remove) whose second hash must be that of the edited transaction. distinct_nontrivial = distinct reference preimages compared",
+		Rule: "exhaustive product: tx shapes nIn 1..3 x nOut 0..3 (thorough: 1..4 x 0..4) x 3/6 boundary value sets (version, locktime, vout, sequence, spent value, output values in {0,1,max,mid}; plus coinbase-like transactions whose first input spends the null outpoint) x output script length {0,25,253} (thorough: {0,1,25,252,253}) x previous script of the signed input in {empty, 1 byte, contains 0xab, 253 bytes, P2PKH, missing, and (defined hash types) three that read as data carriers: `6a`, `00 6a <push>`, `6a 4c`} x previous txid {present, never set, empty after decoding the input from JSON} x input index in {0..nIn-1, nIn, nIn+1, 2^32-1} x all 128 hash types with bit 0x40 (ANYONECANPAY types also with ANOTHER input that has no previous txid yet: the digest is defined and unaffected; every result slice is overwritten by the caller and the call repeated); oracle: preimage byte-identical to the reference FORKID preimage (reference certified on the node's 500 bip143 + 500 legacy vectors at the start of the run), digest = sha256d, errors exactly for missing input/txid/script, ExtendedBytes unchanged; plus hash -> in-place edit -> hash sequences (3/4 shapes x hash-type pairs x index pairs x 23 single edits incl. script bytes rewritten or grown in place through the same Script object, pointer replacement, swaps, append/remove) whose second hash must be that of the edited transaction. distinct_nontrivial = distinct reference preimages compared",
 	})
 	s2 := NewSpace(p2, "forkid", c02Check)
 	NewSpace(p2, "forkid-seq", shSeqCheck)
@@ -319,10 +325,13 @@ func init() {
 				}
 				idxs = append(idxs, uint32(sh.NIn), uint32(sh.NIn+1), 0xffffffff)
 				for _, idx := range idxs {
-					for sk := 0; sk <= 5; sk++ {
+					for sk := 0; sk <= 8; sk++ {
 						for _, notx := range []bool{false, true} {
 							for ht := 0; ht < 256; ht++ {
 								if ht&0x40 == 0 {
+									continue
+								}
+								if sk >= 6 && (ht&0x1c != 0 || notx) {
 									continue
 								}
 								if notx && ht&0x1c != 0 { // the error path does not depend on undefined base types
@@ -356,7 +365,7 @@ func init() {
 	}
 
 	p3 := register(&Prop{ID: "C03", Level: "exploration",
-		Rule: "exhaustive product: same tx shapes/value sets as C02 x script code of the signed input in {empty, 1 byte, contains OP_CODESEPARATOR bytes (taken verbatim), 253 bytes, P2PKH} x every in-range input index x unlocking scripts {absent, filled} x all 128 hash types without bit 0x40 (incl. base 0 and 4..31, SINGLE with index >= nOut); oracle: preimage byte-identical to the reference original-algorithm serialisation (certified on the node's 500 legacy vectors), digest = sha256d, SINGLE-bug digest = 01 00..00 without error, transaction unchanged; plus the same hash -> in-place edit -> hash sequences as C02 with legacy hash types. distinct_nontrivial = distinct reference preimages compared",
+		Rule: "exhaustive product: same tx shapes/value sets as C02 x script code of the signed input in {empty, 1 byte, contains OP_CODESEPARATOR bytes (taken verbatim), 253 bytes, P2PKH, three data-carrier look-alikes} x every in-range input index x unlocking scripts {absent, filled} x all 128 hash types without bit 0x40 (incl. base 0 and 4..31, SINGLE with index >= nOut); oracle: preimage byte-identical to the reference original-algorithm serialisation (certified on the node's 500 legacy vectors), digest = sha256d, SINGLE-bug digest = 01 00..00 without error, transaction unchanged; plus the same hash -> in-place edit -> hash sequences as C02 with legacy hash types. distinct_nontrivial = distinct reference preimages compared",
 	})
 	s3 := NewSpace(p3, "legacy", c03Check)
 	NewSpace(p3, "legacy-seq", shSeqCheck)
@@ -386,10 +395,13 @@ func init() {
 		(&Space[c03Case]{P: p3, Name: s3.Name, Check: chk}).Each(r, func(yield func(c03Case)) {
 			for _, sh := range shapes {
 				for idx := 0; idx < sh.NIn; idx++ {
-					for sk := 0; sk <= 4; sk++ {
+					for _, sk := range []int{0, 1, 2, 3, 4, 6, 7, 8} {
 						for _, filled := range []bool{false, true} {
 							for ht := 0; ht < 256; ht++ {
 								if ht&0x40 != 0 {
+									continue
+								}
+								if sk >= 6 && ht&0x1c != 0 {
 									continue
 								}
 								yield(c03Case{shCase{R: sh, ScriptKind: sk, Idx: uint32(idx), HT: uint8(ht)}, filled})
